@@ -74,10 +74,25 @@ def main():
         strs = [rnd.choice(texts) for _ in range(k)]
         if rnd.random() < 0.5:
             strs.append(strs[0])                      # a second instance parsed from the same string
+        # one system (ensemble) made of two of the strings, in a third of the histories: System.generate(rng=...) is a generation too
+        if rnd.random() < 0.35:
+            parts = [t for t in strs if "." not in t][:2]
+            if len(parts) == 2:
+                strs.append("SYSTEM:" + parts[0] + ".|300|" + parts[1] + ".|700|")
         ops = []
         for _ in range(rnd.randint(15, 40)):
             r = rnd.random()
             i = rnd.randrange(len(strs))
+            if strs[i].startswith("SYSTEM:"):
+                if r < 0.7:
+                    seed = rnd.randrange(5)
+                    ops.append(("generate", i, seed))
+                    need.add((strs[i], seed))
+                elif r < 0.85:
+                    ops.append(("print", i))
+                else:
+                    ops.append(("global", i))
+                continue
             if r < 0.45:
                 seed = rnd.randrange(5)
                 ops.append(("generate", i, seed))
@@ -114,7 +129,7 @@ def main():
     for hi, (strs, ops) in enumerate(plans):
         with warnings.catch_warnings():
             warnings.simplefilter("ignore")
-            objs = [gbigsmiles.Molecule(s) for s in strs]
+            objs = [gbigsmiles.System(s[7:]) if s.startswith("SYSTEM:") else gbigsmiles.Molecule(s) for s in strs]
             dig0 = [digest(o) for o in objs]
             owned = [descriptor_ids(o) for o in objs]
             str0 = [(str(o), o.generate_string(False), o.generable) for o in objs]
@@ -134,7 +149,7 @@ def main():
                             ck.fail("output-depends-on-history", inp, f"generate(seed {op[2]}) gives {g.smiles} ({g.weight}); a fresh process gives {b['smiles']} ({b['weight']})")
                         if any(id(bd) in owned[i] for bd in g.bond_descriptors):
                             ck.fail("molecule-shares-descriptor-with-parsed-object", inp, "an open descriptor of the generated molecule IS a descriptor of the parsed object")
-                        ck.count("op:generate")
+                        ck.count("op:generate" + (":system" if strs[i].startswith("SYSTEM:") else ""))
                     elif name == "generate_global":
                         o.generate()                       # library's global generator: result is not compared, state effects are
                     elif name == "print":
